@@ -236,7 +236,9 @@ def run(prog, rep, tier):
     okb = len(boot) == 1 and boot[0].idx == ("tuple", (FULL, i4)) and boot[0].base == mu and boot[0].value[0] == "call" and boot[0].value[1] == SE + "_bootstrap"
     if okb:
         named = dict(boot[0].value[3])
-        okb = named.get("data") == ("sub", ("sub", ("self", "_data"), k4), ("tuple", (FULL, i4))) and named.get("n") in (("sub", nterm, k4), ("sub", nalt, k4))
+        fb_ = prog.funcs.get(SE + "_bootstrap")
+        pb_ = list(fb_.posparams) if fb_ is not None else ["data", "n"]          # a private helper: its parameter names are its own business
+        okb = len(pb_) >= 2 and named.get(pb_[0]) == ("sub", ("sub", ("self", "_data"), k4), ("tuple", (FULL, i4))) and named.get(pb_[1]) in (("sub", nterm, k4), ("sub", nalt, k4))
     rep.check("SLOTS.bootstrap", okb, fwhere(f4, boot[0].node if boot else None), "source node i of environment k <- _bootstrap(data_k[:, i], n_k) into column i",
               "sources are not resampled from column i of the same environment's data")
     okp, why = False, "no forest branch"
@@ -259,21 +261,25 @@ def run(prog, rep, tier):
     s5, _ = run_function(S5, f5)
     ch = [c for c in S5.select("call", qname=f5.qname) if c.callkind == "method" and c.target == ".choice"]
     okbs = False
+    pb5 = list(f5.posparams) + ["?", "?"]
+    D5, N5 = ("param", pb5[0]), ("param", pb5[1])
+    rs5 = [p_ for p_ in f5.params if p_ not in pb5[:2]]
+    RS5 = ("param", rs5[0]) if len(rs5) == 1 else ("param", "random_state")
     if len(ch) == 1:
         b, extra = api.bind_slots(api.GEN_SLOTS["choice"], ch[0].args, ch[0].kwargs)
-        D = ("param", "data")
-        nn = ("phi", cmp_("is", N, ("const", None)), ext("len", D), N)
-        okbs = ch[0].recv == ext("numpy.random.default_rng", ("param", "random_state")) and b.get("a") == ext("len", D) and b.get("size") == nn and \
+        D, N_ = D5, N5
+        nn = ("phi", cmp_("is", N_, ("const", None)), ext("len", D), N_)
+        okbs = ch[0].recv == ext("numpy.random.default_rng", RS5) and b.get("a") == ext("len", D) and b.get("size") == nn and \
             b.get("replace") in (("const", True), None) and T(s5.ret) == ("sub", D, ch[0].result)
     if not okbs:
         # rng.integers(0, len(data), size=n): uniform positions with replacement - the same bootstrap
         ig = [c for c in S5.select("call", qname=f5.qname) if c.callkind == "method" and c.target == ".integers"]
         if len(ig) == 1 and not ch:
             b, extra = api.bind_slots(api.GEN_SLOTS["integers"], ig[0].args, ig[0].kwargs)
-            D = ("param", "data")
-            nn = ("phi", cmp_("is", N, ("const", None)), ext("len", D), N)
+            D, N_ = D5, N5
+            nn = ("phi", cmp_("is", N_, ("const", None)), ext("len", D), N_)
             lo_hi = (is_const(b.get("low"), 0) and b.get("high") == ext("len", D)) or (b.get("low") == ext("len", D) and b.get("high") is None)
-            okbs = ig[0].recv == ext("numpy.random.default_rng", ("param", "random_state")) and lo_hi and b.get("size") == nn and \
+            okbs = ig[0].recv == ext("numpy.random.default_rng", RS5) and lo_hi and b.get("size") == nn and \
                 b.get("endpoint") in (None, ("const", False)) and T(s5.ret) == ("sub", D, ig[0].result)
     rep.check("BOOTSTRAP.rows", okbs, fwhere(f5), "_bootstrap = data[rng.choice(len(data), n or len(data), replace=True)]: observed rows only",
               "_bootstrap does not return rows of `data` indexed by one seeded choice")
